@@ -720,6 +720,10 @@ func vIdentLanceroConfigure(c *vCase) {
 	r := c.R
 	ncards := 2 + r.Intn(2)
 	rows := 2 + r.Intn(4)
+	offByOne := c.Idx%80 == 53 && vChance(r, 0.35)
+	if offByOne {
+		rows = 51 + r.Intn(14) // a large array, and a card that delivers one row more or less than the configuration says
+	}
 	gpath := filepath.Join(c.Dir, "cringeGlobals.json")
 	os.WriteFile(gpath, []byte(fmt.Sprintf(`{"SETT": 10, "seqln": %d, "lsync": 2000, "testpattern": 0, "propagationdelay": 1, "NSAMP": 1, "carddelay": 1, "XPT": 0}`, rows)), 0o644)
 	old := cringeGlobalsPath
@@ -760,12 +764,25 @@ func vIdentLanceroConfigure(c *vCase) {
 	}
 	if !reallyDup && c.Idx%80 == 53 {
 		// the cards are sampled by the real Sample (scripted cards, each delivering its own number of columns)
+		cardRows := rows
+		if offByOne {
+			cardRows = rows + vPick(r, 1, -1)
+		}
 		for _, dev := range ls.active {
 			dev.ncols = 0
-			card := vEndlessCard(rows, cols[dev.devnum], uint64(r.Int63()))
+			card := vEndlessCard(cardRows, cols[dev.devnum], uint64(r.Int63()))
 			dev.card = card
 		}
-		if err := ls.Sample(); err != nil {
+		err := ls.Sample()
+		if offByOne {
+			if err == nil {
+				c.Violate("c19:row-mismatch-accepted", "%s: the cards deliver %d rows, the configuration says %d; sampling accepted that, so every stream's row/column code and the groups describe an array that does not exist", what, cardRows, rows)
+			} else {
+				c.Cov("configure_cases_with_row_count_off_by_one_refused", 1)
+			}
+			return
+		}
+		if err != nil {
 			c.Inconclusive("setup", "%s: Sample failed on scripted cards: %v", what, err)
 			return
 		}
